@@ -31,12 +31,13 @@ var allModes = []string{modeJoint, modeJoint, modeDemote, modeLegacy}
 
 // Store states. Only states on which the statement is unambiguous are generated: a store is either
 // plainly up (heartbeat far in the future, so no wall-clock drift can make it "disconnected"), or
-// offline, or down (no heartbeat ever). reject-leader and paused-leader stores are up.
+// offline, or down (no heartbeat ever). A paused-leader store is up. Whether a store refuses leaders because of
+// a reject-leader label property is not a state: it follows from the configured property list and the store's
+// labels (world.rejects).
 const (
 	stUp      = "up"
 	stOffline = "offline"
 	stDown    = "down"
-	stReject  = "reject-leader" // up, carries the label of the reject-leader label property
 	stPaused  = "paused-leader" // up, leader transfer paused
 )
 
@@ -48,6 +49,14 @@ type storeDesc struct {
 	Engine string `json:"engine,omitempty"`
 	Zone   string `json:"zone,omitempty"`
 	Host   string `json:"host,omitempty"`
+	// Labels are further store labels (disk=..., noleader=...); they take no part in placement.
+	Labels map[string]string `json:"labels,omitempty"`
+}
+
+// labelProp is one entry of the reject-leader label property list.
+type labelProp struct {
+	Key   string `json:"key"`
+	Value string `json:"value"`
 }
 
 type ruleDesc struct {
@@ -66,8 +75,11 @@ type world struct {
 	RuleSet        []ruleDesc  `json:"rule_set,omitempty"`
 	MaxReplicas    int         `json:"max_replicas"`
 	LocationLabels bool        `json:"location_labels,omitempty"`
-	Evict          uint64      `json:"evict_leader_store,omitempty"` // evict-leader scheduler configured (pauses the store)
-	Grant          uint64      `json:"grant_leader_store,omitempty"` // grant-leader scheduler configured (pauses the store)
+	// RejectLeader is the list of reject-leader label properties in the order they are configured
+	// (several entries may share a key; an entry may be configured twice).
+	RejectLeader []labelProp `json:"reject_leader_properties,omitempty"`
+	Evict        uint64      `json:"evict_leader_store,omitempty"` // evict-leader scheduler configured (pauses the store)
+	Grant        uint64      `json:"grant_leader_store,omitempty"` // grant-leader scheduler configured (pauses the store)
 }
 
 func (w *world) store(id uint64) *storeDesc {
@@ -81,7 +93,47 @@ func (w *world) store(id uint64) *storeDesc {
 
 // isUp: the store is in service (state Up, heartbeating). Written from the world description only.
 func (s *storeDesc) isUp() bool {
-	return s.State == stUp || s.State == stReject || s.State == stPaused
+	return s.State == stUp || s.State == stPaused
+}
+
+// allLabels returns every label the store carries.
+func (s *storeDesc) allLabels() map[string]string {
+	labels := map[string]string{}
+	if s.Zone != "" {
+		labels["zone"] = s.Zone
+	}
+	if s.Host != "" {
+		labels["host"] = s.Host
+	}
+	if s.Engine != "" {
+		labels["engine"] = s.Engine
+	}
+	for k, v := range s.Labels {
+		labels[k] = v
+	}
+	return labels
+}
+
+// rejects: the store refuses leaders because of the reject-leader label property. Written from the
+// documented meaning of the property list - ANY configured (key, value) that equals one of the store's
+// labels - on the world description only; pd's CheckLabelProperty is not consulted.
+func (w *world) rejects(s *storeDesc) (bool, string) {
+	if s == nil {
+		return false, ""
+	}
+	labels := s.allLabels()
+	for i, p := range w.RejectLeader {
+		if v, ok := labels[p.Key]; ok && v == p.Value {
+			return true, fmt.Sprintf("property #%d of %d (%s=%s)", i+1, len(w.RejectLeader), p.Key, p.Value)
+		}
+	}
+	return false, ""
+}
+
+// plainUp: up, ordinary engine, accepts leaders.
+func (w *world) plainUp(s *storeDesc) bool {
+	rej, _ := w.rejects(s)
+	return s.State == stUp && s.Engine == "" && !rej
 }
 
 func (w *world) class() string {
@@ -117,9 +169,11 @@ func newCluster(w *world) (*cluster, error) {
 	opts := config.NewTestOptions()
 	ctx, cancel := context.WithCancel(context.Background())
 	mc := mockcluster.NewCluster(ctx, opts)
-	mc.SetLabelPropertyConfig(config.LabelPropertyConfig{
-		opt.RejectLeader: {{Key: "noleader", Value: "true"}},
-	})
+	// the list is configured entry by entry, in order, through the call the server's SetLabelProperty uses
+	mc.SetLabelPropertyConfig(config.LabelPropertyConfig{})
+	for _, p := range w.RejectLeader {
+		mc.SetLabelProperty(opt.RejectLeader, p.Key, p.Value)
+	}
 	mc.SetMaxReplicas(w.MaxReplicas)
 	if w.LocationLabels {
 		mc.SetLocationLabels([]string{"zone", "host"})
@@ -141,23 +195,11 @@ func newCluster(w *world) (*cluster, error) {
 	}
 	far := time.Now().Add(24 * time.Hour)
 	for _, s := range w.Stores {
-		labels := map[string]string{}
-		if s.Zone != "" {
-			labels["zone"] = s.Zone
-		}
-		if s.Host != "" {
-			labels["host"] = s.Host
-		}
-		if s.Engine != "" {
-			labels["engine"] = s.Engine
-		}
-		if s.State == stReject {
-			labels["noleader"] = "true"
-		}
+		labels := s.allLabels()
 		mc.AddLabelsStore(s.ID, 0, labels)
 		st := mc.GetStore(s.ID)
 		switch s.State {
-		case stUp, stReject:
+		case stUp:
 			st = st.Clone(core.SetLastHeartbeatTS(far))
 		case stPaused:
 			st = st.Clone(core.PauseLeaderTransfer(), core.SetLastHeartbeatTS(far))
@@ -331,7 +373,7 @@ func randomWorld(rng *rand.Rand, forScatter bool) *world {
 		}
 		if rng.Intn(100) < pHostile {
 			if sd.Engine == "" {
-				sd.State = []string{stOffline, stDown, stReject, stPaused}[rng.Intn(4)]
+				sd.State = []string{stOffline, stDown, stPaused}[rng.Intn(3)]
 			} else {
 				sd.State = []string{stOffline, stDown}[rng.Intn(2)]
 			}
@@ -340,8 +382,19 @@ func randomWorld(rng *rand.Rand, forScatter bool) *world {
 			sd.Zone = fmt.Sprintf("z%d", 1+rng.Intn(3))
 			sd.Host = fmt.Sprintf("h%d", i) // every store carries all location labels
 		}
+		// labels outside placement: a disk class on most stores, a "noleader" mark on a few
+		if rng.Intn(100) < 75 {
+			sd.Labels = map[string]string{"disk": []string{"hdd", "ssd", "nvme"}[rng.Intn(3)]}
+		}
+		if rng.Intn(100) < 12 {
+			if sd.Labels == nil {
+				sd.Labels = map[string]string{}
+			}
+			sd.Labels["noleader"] = "true"
+		}
 		w.Stores = append(w.Stores, sd)
 	}
+	w.RejectLeader = randomRejectLeaderProperties(rng, w)
 	// replicas
 	switch w.Rules {
 	case "off":
@@ -396,6 +449,39 @@ func randomWorld(rng *rand.Rand, forScatter bool) *world {
 		}
 	}
 	return w
+}
+
+// randomRejectLeaderProperties draws the reject-leader property LIST: 0..4 entries in random insertion order,
+// frequently several values of one key (so that stores match the first, a later or no entry), sometimes
+// the same entry twice, sometimes different keys, sometimes a value no store carries.
+func randomRejectLeaderProperties(rng *rand.Rand, w *world) []labelProp {
+	n := []int{0, 0, 1, 1, 2, 2, 2, 3, 3, 4}[rng.Intn(10)]
+	if n == 0 {
+		return nil
+	}
+	values := map[string][]string{"disk": {"hdd", "ssd", "nvme", "tape"}, "noleader": {"true", "yes"}}
+	keys := []string{"disk", "disk", "noleader"}
+	if w.LocationLabels || w.Rules == "custom" {
+		values["zone"] = []string{"z1", "z2", "z3", "z9"}
+		keys = append(keys, "zone", "zone")
+	}
+	var out []labelProp
+	shared := keys[rng.Intn(len(keys))]
+	shareKey := rng.Intn(100) < 65
+	for len(out) < n {
+		k := shared
+		if !shareKey || rng.Intn(5) == 0 {
+			k = keys[rng.Intn(len(keys))]
+		}
+		if len(out) > 0 && rng.Intn(8) == 0 {
+			out = append(out, out[rng.Intn(len(out))]) // the same entry configured twice
+			continue
+		}
+		vs := values[k]
+		out = append(out, labelProp{Key: k, Value: vs[rng.Intn(len(vs))]})
+	}
+	rng.Shuffle(len(out), func(i, j int) { out[i], out[j] = out[j], out[i] })
+	return out
 }
 
 func (w *world) ordinaryStores() []uint64 {
@@ -542,4 +628,54 @@ func sortedU64(m map[uint64]bool) []uint64 {
 	}
 	sort.Slice(out, func(i, j int) bool { return out[i] < out[j] })
 	return out
+}
+
+// countProps records what the reject-leader property list of a world looks like (evidence).
+func countProps(s *stats, w *world) {
+	s.count(fmt.Sprintf("worlds_with_%d_reject_leader_properties", len(w.RejectLeader)), 1)
+	perKey := map[string]map[string]bool{}
+	first := map[string]string{}
+	dup := false
+	for _, p := range w.RejectLeader {
+		if perKey[p.Key] == nil {
+			perKey[p.Key] = map[string]bool{}
+			first[p.Key] = p.Value
+		} else if perKey[p.Key][p.Value] {
+			dup = true
+		}
+		perKey[p.Key][p.Value] = true
+	}
+	shared := false
+	for _, vs := range perKey {
+		if len(vs) > 1 {
+			shared = true
+		}
+	}
+	if shared {
+		s.count("worlds_with_reject_leader_properties_sharing_a_key", 1)
+	}
+	if dup {
+		s.count("worlds_with_a_reject_leader_property_configured_twice", 1)
+	}
+	if len(perKey) > 1 {
+		s.count("worlds_with_reject_leader_properties_on_different_keys", 1)
+	}
+	for i := range w.Stores {
+		sd := &w.Stores[i]
+		rej, _ := w.rejects(sd)
+		if !rej {
+			continue
+		}
+		s.count("stores_refusing_leaders_by_label_property", 1)
+		labels := sd.allLabels()
+		later := true
+		for k, v := range first {
+			if labels[k] == v {
+				later = false // matches the first configured value of some key
+			}
+		}
+		if later {
+			s.count("stores_refusing_leaders_only_by_a_later_value_of_a_shared_key", 1)
+		}
+	}
 }
